@@ -298,8 +298,10 @@ func identityOf(e *auditevent.AuditEvent) identity {
 
 func (w *World) MakeEvent(c Call) *aucoalesce.Event {
 	ev := &aucoalesce.Event{
-		Timestamp: w.tsBase.Add(time.Duration(c.Tag) * 1234567 * time.Microsecond),
-		Sequence:  uint32(1000 + c.Tag),
+		// time stamps and sequence numbers are NOT monotonic in processing order
+		// (the reassembler completes compound events late); distinct per tag
+		Timestamp: w.tsBase.Add(time.Duration((c.Tag*60013+w.pidStep*131)%100003) * 1234567 * time.Microsecond),
+		Sequence:  uint32(1000 + (c.Tag*104729+w.pidStep)%1000003),
 		Session:   w.RealSess(c.Sess),
 		Result:    c.Res,
 		Summary: aucoalesce.Summary{
